@@ -70,6 +70,12 @@ func runC15(c *engine.Ctx) {
 	valsAligned := map[uint8][]byte{ref.AtRAND: univ.Pat(16, 11), ref.AtAUTN: univ.Pat(16, 12), ref.AtRES: univ.Pat(8, 13), ref.AtMAC: univ.Pat(16, 14),
 		ref.AtKDF: {0, 1}, ref.AtKDFInput: univ.Pat(12, 15), ref.AtCheckcode: nil}
 	keyLens := []int{1, 16, 31, 32, 33, 64, 65, 100}
+	if c.Thorough() {
+		keyLens = nil
+		for n := 1; n <= 130; n++ {
+			keyLens = append(keyLens, n)
+		}
+	}
 	for mask := 0; mask < 128; mask++ {
 		if !c.Mine() {
 			continue
@@ -84,7 +90,7 @@ func runC15(c *engine.Ctx) {
 			e := &ref.EAP{Code: uint8(1 + mask%2), ID: uint8(mask), Method: 50, Sub: uint8([]int{1, 5, 13}[mask%3]), AKA: ats}
 			for ki, kl := range keyLens {
 				for kp := 0; kp < 3; kp++ {
-					if vi == 1 && (ki+kp)%4 != 0 {
+					if vi == 1 && (ki+kp)%4 != 0 && !c.Thorough() {
 						continue
 					}
 					prior := 0
@@ -188,7 +194,7 @@ func c15Sender(c *engine.Ctx, cs c15Case) {
 	rc := cs
 	rc.K = "receiver"
 	c15Receiver(c, rc, wire)
-	if cs.KeyPat == 2 && (cs.KeyLen == 32 || cs.KeyLen == 65) {
+	if cs.KeyPat == 2 && (cs.KeyLen == 32 || cs.KeyLen == 65 || (c.Thorough() && cs.KeyLen%16 == 1)) {
 		for pos := 0; pos < len(wire); pos++ {
 			for _, x := range []byte{0x01, 0x80} {
 				sc := cs
